@@ -304,20 +304,23 @@ def bounded(K):
         sps_list = (4, 5, 8, 16, 33, 64) if thorough else (4, 5, 16, 33)
         devs = [(5.0, 0.0, 30.0, 1e-3, 1.0, 50.0, 0.75)]
         devs += [(3.3, 3.0, 10.0, 5e-3, 0.7, 1000.0, 0.7), (8.0, 6.0, 20.0, 1e-4, 0.5, 50.0, 1.5)] if thorough else [(3.3, 3.0, 10.0, 5e-3, 0.7, 1000.0, 0.7)]
-        for sps in sps_list:
+        # a reduced grid in descending order of sps runs before and after the full ascending grid: a link must not depend on the links simulated before it in the same process
+        for sps, pass2 in [(q, True) for q in reversed(sps_list)] + [(q, False) for q in sps_list] + [(q, True) for q in reversed(sps_list)]:
             for R in ((1e9, 10e9) if thorough else (10e9,)):
                 for shape in ('nrz', 'gaussian'):
                     for npol in (1, 2):
                         for medium in (None, 'dm', 'fiber'):
                             for pn, pf in pats.items():
-                                for dv in (devs if pn in ('random', 'runs') else devs[:1]):
+                                if pass2 and (pn != 'random' or medium is not None or npol != 1):
+                                    continue
+                                for dv in (devs if pn in ('random', 'runs') and not pass2 else devs[:1]):
                                     nb = 64
                                     bits = np.asarray(pf(nb)).astype(int)
                                     if bits.min() == bits.max():
                                         bits[0] = 1 - bits[0]
                                     n_eval += 1
-                                    seen.add((pn, sps, R, shape, npol, medium, dv))
-                                    case = {'pattern': pn, 'sps': sps, 'R': R, 'shape': shape, 'npol': npol, 'medium': medium, 'Vpi,loss,ER,P,r,R_load,BW/R': dv}
+                                    seen.add((pn, sps, R, shape, npol, medium, dv, pass2))
+                                    case = {'pattern': pn, 'sps': sps, 'R': R, 'shape': shape, 'npol': npol, 'medium': medium, 'Vpi,loss,ER,P,r,R_load,BW/R': dv, 'order': 'descending sps (after links with larger sps)' if pass2 else 'ascending sps'}
                                     signal.alarm(30)
                                     try:
                                         out = decide(chain(bits, sps, R, shape, npol, medium, *dv), sps)
@@ -392,13 +395,29 @@ def bounded(K):
                         except Exception as e:
                             signal.alarm(0)
                             bad.append(dict(case, problem=f'{type(e).__name__}: {e}'))
+        # counters on long sequences with many flipped bits (k beyond any 8/16-bit accumulator)
+        for mod in (ook, ppm):
+            for nb in (2048, 70000):
+                tx = rng.integers(0, 2, nb).astype(np.uint8)
+                for kf in (0, 1, 255, 256, 300, nb // 2, nb) if nb == 2048 else (65535, 65536, 66000):
+                    rx = tx.copy()
+                    rx[rng.choice(nb, kf, replace=False)] ^= 1
+                    n_eval += 1
+                    seen.add(('counter', mod.__name__, nb, kf))
+                    for form in ('binary_sequence', 'ndarray'):
+                        try:
+                            got = mod.BER_analizer('counter', Tx=binary_sequence(tx) if form == 'binary_sequence' else tx, Rx=binary_sequence(rx) if form == 'binary_sequence' else rx)
+                            if abs(got - kf / nb) > 1e-15:
+                                bad.append({'routine': mod.__name__ + '.BER_analizer(counter)', 'n': nb, 'flipped': kf, 'form': form, 'problem': f'reported {got}, expected {kf / nb}'})
+                        except Exception as e:
+                            bad.append({'routine': mod.__name__ + '.BER_analizer(counter)', 'n': nb, 'flipped': kf, 'form': form, 'problem': f'{type(e).__name__}: {e}'})
         gv.clean()
         return {'n': n_eval, 'n_link': n_link, 'distinct': len(seen), 'bad': bad[:6], 'nbad': len(bad)}
     st, r = native(work, 6000)
     K.bounded('link_decisions', st == 'ok' and r['nbad'] == 0,
               {'evaluations': r['n'] if st == 'ok' else 0, 'distinct_nontrivial': r['distinct'] if st == 'ok' else 0,
                'bound': ('64-bit sequences (random, PRBS7, alternating, single 1, single 0, runs of 8) x sps in ' + ('{4,5,8,16,33,64}' if thorough else '{4,5,16,33}') + ' x R in ' + ('{1,10}' if thorough else '{10}') +
-                         ' GHz x nrz/gaussian x 1/2 pol x {no medium, DM with |beta2 L| = 0.9% T^2, FIBER likewise} x ' + ('3' if thorough else '2') + ' device settings; ook.DSP on 32..256 random/PRBS slots; ppm.DSP hard/soft M in {2,4,8,16}; counters with 1..5 flips'),
+                         ' GHz x nrz/gaussian x 1/2 pol x {no medium, DM with |beta2 L| = 0.9% T^2, FIBER likewise} x ' + ('3' if thorough else '2') + ' device settings, preceded and followed by random patterns in descending order of sps (history independence); ook.DSP on 32..256 random/PRBS slots; ppm.DSP hard/soft M in {2,4,8,16}; counters with 1..5 flips, and on 2048/70000-bit sequences with k in {0,1,255,256,300,n/2,n} / {65535,65536,66000} flips'),
                'samples': [{'pattern': 'runs', 'sps': 33, 'shape': 'gaussian', 'npol': 2, 'medium': 'fiber'}], 'failures': r if st == 'ok' else [st, r]})
 
 
